@@ -74,6 +74,8 @@ class BuiltinsMixin:
                 return self.mk_tuple(so.payload)
             if so.kind == 'seqval':
                 return so.payload
+            if so.kind == 'dictvalues':
+                return self.dict_values_seq(so.payload)
             self.unsupported(f'materialising generator {so.kind}', node)
         k = self.kind_of(v, force=True)
         if k != 'ref':
@@ -113,7 +115,71 @@ class BuiltinsMixin:
         self.keyseq_of = getattr(self, 'keyseq_of', {})
         self.keyseq_of[s.get_id()] = d
         self.global_cache[ck] = t
+        arr = self.dict_arr(d)
+
+        def inst(i):
+            # every position of the key sequence holds a key that is present
+            k = smt.elem_at(s, i)
+            self._add_axiom(z3.Implies(z3.And(i >= 0, i < z3.Length(s)),
+                                       z3.And(k != smt.ABSENT, z3.Select(arr, smt.simp(smt.key_of(k))) != smt.ABSENT)))
+        self.add_qfact(s, 'dictkeys', inst)
+        # ... and every present key sits at some position (Skolem position of the key)
+        pos = z3.Function(f'keypos_{self.fresh_counter}_{len(self.keyseq_of)}', Val, smt.I)
+        base = arr
+        while z3.is_app(base) and base.decl().kind() == z3.Z3_OP_STORE:
+            base = base.arg(0)
+
+        def present(kk):
+            if getattr(self, '_in_present', False):
+                return                      # keys derived from a Skolem position: no new positions (terminates)
+            self._in_present = True
+            try:
+                present_(kk)
+            finally:
+                self._in_present = False
+
+        def present_(kk):
+            p = pos(kk)
+            self._add_axiom(z3.Implies(z3.Select(arr, kk) != smt.ABSENT,
+                                       z3.And(p >= 0, p < z3.Length(s), smt.key_of(smt.elem_at(s, p)) == kk)))
+            self.note_index(s, smt.simp(p))
+        if base.eq(arr):
+            prev = self.base_facts.get(base.get_id())
+
+            def both(kk, prev=prev):
+                if prev is not None:
+                    prev(kk)
+                present(kk)
+            self.base_facts[base.get_id()] = both
         return t
+
+    def dict_values_seq(self, d):
+        """values of a symbolic dict in iteration order: W[i] = d[keys[i]]"""
+        ck = ('values', smt.simp(Val.r(d)).get_id(), self.dict_arr(d).get_id())
+        if ck in self.global_cache:
+            return self.global_cache[ck]
+        kt = self.dict_keys_seq(d)
+        ks = self.get_seq(kt)
+        arr = self.dict_arr(d)
+        W = self.fresh('values', smt.SeqV)
+        self._add_axiom(z3.Length(W) == z3.Length(ks))
+        out = self.alloc(builtin_class('tuple'))
+        self.set_seq(out, W)
+
+        def inst(i):
+            inr = z3.And(i >= 0, i < z3.Length(W))
+            if z3.is_false(smt.simp(inr)):
+                return
+            k = self.elem(ks, i)
+            kk = smt.simp(smt.key_of(k))
+            v = z3.Select(arr, kk)
+            self._add_axiom(z3.Implies(inr, z3.And(smt.elem_at(W, i) == v, v != smt.ABSENT)))
+            if self.merged_dicts or self.base_facts:
+                self.merged_member_fact(arr, kk)
+        self.link_seqs(ks, W)
+        self.add_qfact(W, 'dictvalues', inst)
+        self.global_cache[ck] = out
+        return out
 
     # ==================================================================================== dict / set helpers
     def dict_copy(self, d):
@@ -598,6 +664,29 @@ class BuiltinsMixin:
             default = args[1] if len(args) > 1 else smt.NONE
             self.dict_set(d, args[0], default)
             return default
+        return v
+
+    # ---- collections.defaultdict(factory): a dict whose missing keys are created by calling the factory
+    def bi_defaultdict(self, args, kwargs):
+        d = self.alloc(builtin_class('defaultdict'))
+        r = smt.simp(Val.r(d))
+        self.st.dct = z3.Store(self.st.dct, r, z3.K(Val, smt.ABSENT))
+        self.st.dlen = z3.Store(self.st.dlen, r, z3.IntVal(0))
+        self.set_attr_raw(d, '$factory', args[0] if args else smt.NONE)
+        if len(args) > 1 or kwargs:
+            self.unsupported('defaultdict with initial contents')
+        return d
+
+    def defaultdict_getitem(self, d, k, node=None):
+        self.check_hashable(k)
+        v = self.dict_get(d, k)
+        if self.branch(v == smt.ABSENT):
+            f = smt.simp(z3.Select(self.attr_array('$factory'), Val.r(d)))
+            if smt.tag_of(f) == 'none':
+                self.raise_new('KeyError', k)
+            nv = self.call(f, [], {})
+            self.dict_set(d, k, nv)
+            return nv
         return v
 
     def bb_dict_copy(self, d, args, kwargs):
